@@ -408,7 +408,8 @@ def scenario(ch, cfg):
 JSON_VALUES = [1, 0, -7, 2.5, 0.0, "s", "", "é x", True, False, None, [], [1, 2, 3], [1.5, 2.5], ["a", "b"], [3, 4.5, "x"], [[1, 2], [3, 4]],
                [1, [2, "y"]], {"a": 1}, {"k": [1, 2], "s": "v"}, {}]
 SEND_LITS = [("[1 2 3]", [1, 2, 3]), ('"hi"', "hi"), (':{["a" 1]}', {"a": 1}), ("42", 42), ("2.5", 2.5), ('["x" "y"]', ["x", "y"]),
-             ("[[1 2] [3 4]]", [[1, 2], [3, 4]]), ('""', ""), ("1+1", 2), ("-7", -7), ("[5 6]@1", 6), ("2*3.5", 7.0)]     # incl. computed numbers
+             ("[[1 2] [3 4]]", [[1, 2], [3, 4]]), ('""', ""), ("1+1", 2), ("-7", -7), ("[5 6]@1", 6), ("2*3.5", 7.0),     # incl. computed numbers
+             (":{[1 2]}", {"1": 2}), (":{},(1+1),5", {"2": 5})]     # numeric dictionary keys (JSON object keys are their text), literal and computed
 
 
 def scenario_ws(ch, cfg):
